@@ -1,6 +1,515 @@
-//! Equality / ordering / hashing (C05).
+//! Equality / ordering / hashing follow the value (C05).
+//!
+//! Integer ops
+//!   c.routes x            UBig x built by ~30 routes (constructors, parsing, arithmetic round trips,
+//!                         shifts across the inline/heap boundary, clones, bytes, bit ops …): every
+//!                         result must be canonical (hook `ubig_repr_info`: inline iff <= 2 words, no
+//!                         leading zero word) and all results pairwise `==`, `cmp == Equal`, same
+//!                         hash feed.   -> `<inline> d:<len> routes-agree` | `… BAD <route>:<what>`
+//!   ci.routes x           the same for IBig (plus: every zero produced from negative operands is +0)
+//!   c.cmp a b d:ra d:rb   IBig a, b built by routes ra, rb -> `<==> <cmp> <cmp reversed> <same hash feed>`
+//!   cu.cmp a b d:ra d:rb  the same on UBig
+//!   c.ones d:n            UBig::ones(n): layout, and ==/cmp/hash against (1 << n) - 1
+//!   c.hashfeed x          the byte sequence `Hash for IBig` feeds to a Hasher
+//! Float / rational ops are in the second half of the file.
+use dashu_base::{Abs, BitTest, Sign, UnsignedAbs};
+use dashu_int::verif::{ibig_repr_info, ubig_repr_info};
+use dashu_int::{IBig, UBig, Word};
+use std::cmp::Ordering;
+use std::hash::{Hash, Hasher};
 use verif_harness::util::*;
 
-pub fn dispatch(_op: &str, _args: &[&str]) -> Option<Res> {
+/// a Hasher that records everything it is fed
+#[derive(Default)]
+pub struct Rec(pub Vec<u8>);
+impl Hasher for Rec {
+    fn finish(&self) -> u64 {
+        0
+    }
+    fn write(&mut self, bytes: &[u8]) {
+        self.0.extend_from_slice(bytes);
+    }
+}
+pub fn feed<T: Hash>(x: &T) -> Vec<u8> {
+    let mut h = Rec::default();
+    x.hash(&mut h);
+    h.0
+}
+
+fn wlen(ws: &[Word]) -> usize {
+    ws.len()
+}
+
+/// canonical-form check of a UBig through the hook; returns None if fine
+fn canon_u(x: &UBig) -> Option<String> {
+    let (cap, len) = ubig_repr_info(x);
+    let ws = x.as_words();
+    if cap <= 0 {
+        return Some(format!("cap={}", cap));
+    }
+    if len != ws.len() {
+        return Some(format!("len{}!=words{}", len, ws.len()));
+    }
+    if let Some(&top) = ws.last() {
+        if top == 0 {
+            return Some("leading-zero-word".into());
+        }
+    }
+    let inline = cap <= 2;
+    if inline != (ws.len() <= 2) {
+        return Some(format!("inline={}_with_{}_words", inline, ws.len()));
+    }
+    if inline && ((cap == 1) != (ws.len() <= 1)) {
+        return Some(format!("cap={}_with_{}_words", cap, ws.len()));
+    }
     None
+}
+
+fn canon_i(x: &IBig) -> Option<String> {
+    let (cap, len) = ibig_repr_info(x);
+    let (sign, ws) = x.as_sign_words();
+    if cap == 0 {
+        return Some("cap=0".into());
+    }
+    if (cap < 0) != (sign == Sign::Negative) {
+        return Some("sign-mismatch".into());
+    }
+    if ws.is_empty() && sign == Sign::Negative {
+        return Some("negative-zero".into());
+    }
+    if len != ws.len() {
+        return Some(format!("len{}!=words{}", len, ws.len()));
+    }
+    if let Some(&top) = ws.last() {
+        if top == 0 {
+            return Some("leading-zero-word".into());
+        }
+    }
+    let a = cap.unsigned_abs();
+    let inline = a <= 2;
+    if inline != (ws.len() <= 2) {
+        return Some(format!("inline={}_with_{}_words", inline, ws.len()));
+    }
+    if inline && ((a == 1) != (ws.len() <= 1)) {
+        return Some(format!("cap={}_with_{}_words", cap, ws.len()));
+    }
+    None
+}
+
+pub const N_UROUTES: usize = 34;
+
+/// build the UBig `x` by route `r` (the result must have the same value as `x`)
+pub fn route_u(x: &UBig, r: usize) -> Option<UBig> {
+    let ws = x.as_words().to_vec();
+    let bits = x.bit_len();
+    let big = (UBig::ONE << 300) + UBig::from(12345u32);
+    Some(match r {
+        0 => UBig::from_words(&ws),
+        1 => {
+            // from_words with leading zero words appended
+            let mut w = ws.clone();
+            w.extend_from_slice(&[0, 0, 0]);
+            UBig::from_words(&w)
+        }
+        2 => UBig::from_str_radix(&format!("{:x}", x), 16).ok()?,
+        3 => x.to_string().parse::<UBig>().ok()?,
+        4 => UBig::from_str_radix(&x.in_radix(36).to_string(), 36).ok()?,
+        5 => x.clone(),
+        6 => {
+            let mut t = big.clone();
+            t.clone_from(x);
+            t
+        }
+        7 => {
+            let mut t = UBig::from(7u8);
+            t.clone_from(x);
+            t
+        }
+        8 => x + UBig::ONE - UBig::ONE,
+        9 => x + &big - &big,
+        10 => (x + x) - x,
+        11 => (x + UBig::from(u128::MAX)) - UBig::from(u128::MAX),
+        12 => (x << 1usize) >> 1usize,
+        13 => (x << 64usize) >> 64usize,
+        14 => (x << 65usize) >> 65usize,
+        15 => (x << 128usize) >> 128usize,
+        16 => (x * UBig::from(3u8)) / UBig::from(3u8),
+        17 => (x * &big) / &big,
+        18 => UBig::from_le_bytes(&x.to_le_bytes()),
+        19 => UBig::from_be_bytes(&x.to_be_bytes()),
+        20 => x | UBig::ZERO,
+        21 => (x ^ &big) ^ &big,
+        22 => x & UBig::ones(bits + 70),
+        23 => {
+            let (lo, hi) = x.clone().split_bits(64);
+            (hi << 64usize) | lo
+        }
+        24 => {
+            let (lo, hi) = x.clone().split_bits(128);
+            (hi << 128usize) + lo
+        }
+        25 => {
+            let mut t = x.clone();
+            let k = bits + 200;
+            t.set_bit(k);
+            t.clear_bit(k);
+            t
+        }
+        26 => {
+            let mut t = x.clone();
+            t.clear_high_bits(bits + 1);
+            t
+        }
+        27 => UBig::try_from(-(-IBig::from(x.clone()))).ok()?,
+        28 => IBig::from(x.clone()).unsigned_abs(),
+        29 => {
+            if bits <= 128 {
+                UBig::from(u128::try_from(x).ok()?)
+            } else {
+                return None;
+            }
+        }
+        30 => {
+            // ones(n) when x = 2^n - 1
+            if x.count_ones() == bits && bits > 0 {
+                UBig::ones(bits)
+            } else {
+                return None;
+            }
+        }
+        31 => x.pow(1),
+        32 => {
+            // a sum that carries into a new top word and back
+            let t = x + (UBig::ONE << (wlen(&ws).max(1) * 64));
+            t - (UBig::ONE << (wlen(&ws).max(1) * 64))
+        }
+        33 => {
+            if x.is_zero() {
+                return None;
+            }
+            dashu_base::Gcd::gcd(x, x)
+        }
+        _ => return None,
+    })
+}
+
+pub const N_IROUTES: usize = 22;
+
+pub fn route_i(x: &IBig, r: usize) -> Option<IBig> {
+    let (sign, mag) = x.clone().into_parts();
+    let big = (IBig::ONE << 300) + IBig::from(12345u32);
+    Some(match r {
+        0 => IBig::from_parts(sign, mag.clone()),
+        1 => x.to_string().parse::<IBig>().ok()?,
+        2 => IBig::from_str_radix(&format!("{:x}", x), 16).ok()?,
+        3 => x.clone(),
+        4 => {
+            let mut t = -big.clone();
+            t.clone_from(x);
+            t
+        }
+        5 => -(-x),
+        6 => x + &big - &big,
+        7 => x - &big + &big,
+        8 => (x << 1usize) >> 1usize,
+        9 => (x << 129usize) >> 129usize,
+        10 => (x * IBig::NEG_ONE) * IBig::NEG_ONE,
+        11 => (x * &big) / &big,
+        12 => !(!x),
+        13 => (x ^ &big) ^ &big,
+        14 => (x ^ -&big) ^ -&big,
+        15 => x | IBig::ZERO,
+        16 => x & IBig::NEG_ONE,
+        17 => IBig::from_le_bytes(&x.to_le_bytes()),
+        18 => {
+            if x.bit_len() < 127 {
+                IBig::from(i128::try_from(x).ok()?)
+            } else {
+                return None;
+            }
+        }
+        19 => x.signum() * x.clone().abs(),
+        20 => IBig::from_parts(sign, route_u(&mag, 9)?),
+        21 => {
+            if x.is_zero() {
+                // zeros produced from negative operands
+                let y = IBig::from(-5);
+                let zs = [
+                    &y + IBig::from(5),
+                    &y * IBig::ZERO,
+                    &y / IBig::from(7),
+                    &y % IBig::from(5),
+                    &y & IBig::ZERO,
+                    &y ^ &y,
+                    -IBig::ZERO,
+                    IBig::from_parts(Sign::Negative, UBig::ZERO),
+                    (-&big) - (-&big),
+                    (-&big) >> 0usize ^ (-&big),
+                ];
+                for z in zs.iter() {
+                    if canon_i(z).is_some() || *z != IBig::ZERO || feed(z) != feed(&IBig::ZERO) {
+                        return Some(IBig::from(-1)); // make the failure visible as a value mismatch
+                    }
+                }
+                IBig::ZERO
+            } else {
+                return None;
+            }
+        }
+        _ => return None,
+    })
+}
+
+fn routes_report<T: Eq + Ord + Hash>(
+    vals: &[(usize, T)],
+    canon: impl Fn(&T) -> Option<String>,
+) -> Option<String> {
+    for (r, v) in vals {
+        if let Some(e) = canon(v) {
+            return Some(format!("route{}:noncanonical({})", r, e));
+        }
+    }
+    for (r0, a) in vals {
+        for (r1, b) in vals {
+            if a != b {
+                return Some(format!("route{}!=route{}", r0, r1));
+            }
+            if a.cmp(b) != Ordering::Equal {
+                return Some(format!("cmp(route{},route{})={}", r0, r1, f_ord(a.cmp(b))));
+            }
+            if a.partial_cmp(b) != Some(Ordering::Equal) {
+                return Some(format!("partial_cmp(route{},route{})", r0, r1));
+            }
+            if feed(a) != feed(b) {
+                return Some(format!("hash(route{})!=hash(route{})", r0, r1));
+            }
+        }
+    }
+    None
+}
+
+fn hexbytes(b: &[u8]) -> String {
+    f_bytes(b)
+}
+
+pub fn dispatch(op: &str, args: &[&str]) -> Option<Res> {
+    if let Some(r) = dispatch_int(op, args) {
+        return Some(r);
+    }
+    crate::ops_cmp::fr::dispatch(op, args)
+}
+
+fn dispatch_int(op: &str, args: &[&str]) -> Option<Res> {
+    Some((|| -> Res {
+        match op {
+            "c.routes" => {
+                let x = p_ubig(arg(args, 0)?)?;
+                let mut vals = vec![];
+                for r in 0..N_UROUTES {
+                    if let Some(v) = route_u(&x, r) {
+                        vals.push((r, v));
+                    }
+                }
+                let (cap, len) = ubig_repr_info(&x);
+                let head = format!("{} {}", cap <= 2, f_dec(len));
+                Ok(match routes_report(&vals, canon_u) {
+                    None => format!("{} routes-agree", head),
+                    Some(e) => format!("{} BAD {}", head, e),
+                })
+            }
+            "ci.routes" => {
+                let x = p_ibig(arg(args, 0)?)?;
+                let mut vals = vec![];
+                for r in 0..N_IROUTES {
+                    if let Some(v) = route_i(&x, r) {
+                        vals.push((r, v));
+                    }
+                }
+                let (cap, len) = ibig_repr_info(&x);
+                let head = format!("{} {} {}", f_sign(x.sign()), cap.unsigned_abs() <= 2, f_dec(len));
+                Ok(match routes_report(&vals, canon_i) {
+                    None => format!("{} routes-agree", head),
+                    Some(e) => format!("{} BAD {}", head, e),
+                })
+            }
+            "c.cmp" => {
+                let a0 = p_ibig(arg(args, 0)?)?;
+                let b0 = p_ibig(arg(args, 1)?)?;
+                let ra = p_usize(arg(args, 2)?)? % N_IROUTES;
+                let rb = p_usize(arg(args, 3)?)? % N_IROUTES;
+                let a = route_i(&a0, ra).unwrap_or(a0);
+                let b = route_i(&b0, rb).unwrap_or(b0);
+                let pc = a.partial_cmp(&b) == Some(a.cmp(&b)) && (a < b) == (a.cmp(&b) == Ordering::Less);
+                Ok(format!(
+                    "{} {} {} {}{}",
+                    a == b,
+                    f_ord(a.cmp(&b)),
+                    f_ord(b.cmp(&a)),
+                    feed(&a) == feed(&b),
+                    if pc { "" } else { " BAD partial_cmp" }
+                ))
+            }
+            "cu.cmp" => {
+                let a0 = p_ubig(arg(args, 0)?)?;
+                let b0 = p_ubig(arg(args, 1)?)?;
+                let ra = p_usize(arg(args, 2)?)? % N_UROUTES;
+                let rb = p_usize(arg(args, 3)?)? % N_UROUTES;
+                let a = route_u(&a0, ra).unwrap_or(a0);
+                let b = route_u(&b0, rb).unwrap_or(b0);
+                Ok(format!(
+                    "{} {} {} {}",
+                    a == b,
+                    f_ord(a.cmp(&b)),
+                    f_ord(b.cmp(&a)),
+                    feed(&a) == feed(&b)
+                ))
+            }
+            "c.ones" => {
+                let n = p_usize(arg(args, 0)?)?;
+                let o = UBig::ones(n);
+                let r = (UBig::ONE << n) - UBig::ONE;
+                let (cap, len) = ubig_repr_info(&o);
+                Ok(format!(
+                    "{} {} {} {} {}",
+                    cap <= 2,
+                    f_dec(len),
+                    o == r,
+                    f_ord(o.cmp(&r)),
+                    feed(&o) == feed(&r)
+                ))
+            }
+            "c.hashfeed" => {
+                let x = p_ibig(arg(args, 0)?)?;
+                let fi = feed(&x);
+                // a UBig of the same value must feed the same bytes as the non-negative IBig
+                if x.sign() == Sign::Positive {
+                    let u = UBig::try_from(x.clone()).map_err(|_| "bad-arg".to_string())?;
+                    if feed(&u) != fi {
+                        return Ok(format!("{} BAD ubig-feed-differs", hexbytes(&fi)));
+                    }
+                }
+                Ok(hexbytes(&fi))
+            }
+            _ => Err("__none__".into()),
+        }
+    })())
+    .and_then(|r| match r {
+        Err(e) if e == "__none__" => None,
+        other => Some(other),
+    })
+}
+
+// ====================================================================== floats and rationals
+pub mod fr {
+    use super::*;
+    use dashu_float::{round::mode, FBig};
+    use dashu_ratio::{RBig, Relaxed};
+
+    type F2 = FBig<mode::Zero, 2>;
+    type F10 = FBig<mode::HalfAway, 10>;
+    type F16 = FBig<mode::Zero, 16>;
+
+    fn p_isize(s: &str) -> Result<isize, String> {
+        let v = p_dec(s)?;
+        isize::try_from(v).map_err(|_| format!("bad-arg isize {}", s))
+    }
+
+    /// `inf` / `-inf` / `<signif hex> d:<exp> d:<precision>` (precision 0 = as given by from_parts)
+    macro_rules! mkf {
+        ($T:ty, $s:expr, $e:expr, $p:expr) => {{
+            let s: &str = $s;
+            if s == "inf" {
+                <$T>::INFINITY
+            } else if s == "-inf" {
+                <$T>::NEG_INFINITY
+            } else {
+                let f = <$T>::from_parts(p_ibig(s)?, $e);
+                if $p == 0 {
+                    f
+                } else if $p >= f.precision() {
+                    // raising the precision never changes the representation
+                    f.with_precision($p).value()
+                } else {
+                    return Err(format!("bad-arg precision {} < digits", $p));
+                }
+            }
+        }};
+    }
+
+    macro_rules! fcmp {
+        ($TA:ty, $TB:ty, $args:expr) => {{
+            let a = mkf!($TA, arg($args, 1)?, p_isize(arg($args, 2)?)?, p_usize(arg($args, 3)?)?);
+            let b = mkf!($TB, arg($args, 4)?, p_isize(arg($args, 5)?)?, p_usize(arg($args, 6)?)?);
+            let c = a.partial_cmp(&b).map(f_ord).unwrap_or("none");
+            let d = b.partial_cmp(&a).map(f_ord).unwrap_or("none");
+            Ok(format!("{} {} {}", a == b, c, d))
+        }};
+    }
+
+    pub fn dispatch(op: &str, args: &[&str]) -> Option<Res> {
+        Some((|| -> Res {
+            match op {
+                // f.cmp <base> sa ea pa sb eb pb : two floats of the same base (rounding modes may
+                // differ: PartialOrd<FBig<R2,B>> for FBig<R1,B>)
+                "f.cmp" => match arg(args, 0)? {
+                    "2" => fcmp!(F2, FBig<mode::HalfEven, 2>, args),
+                    "10" => fcmp!(F10, FBig<mode::Zero, 10>, args),
+                    "16" => fcmp!(F16, F16, args),
+                    b => Err(format!("bad-arg base {}", b)),
+                },
+                // f.basecmp sa ea pa d:p10 sb eb : the binary float (signif, exp >= 0 small, precision) is
+                // converted by with_base::<10>() (which is then the exact integer sa*2^ea, with the new
+                // precision p10 predicted by the generator and checked here) and compared with the
+                // decimal float (sb, eb) -> ==, cmp, reversed cmp
+                "f.basecmp" => {
+                    use dashu_base::Approximation;
+                    let a = mkf!(F2, arg(args, 0)?, p_isize(arg(args, 1)?)?, p_usize(arg(args, 2)?)?);
+                    let p10 = p_usize(arg(args, 3)?)?;
+                    let conv = a.with_base::<10>();
+                    let exact = matches!(conv, Approximation::Exact(_));
+                    let c: FBig<mode::Zero, 10> = conv.value();
+                    let b = mkf!(FBig<mode::Zero, 10>, arg(args, 4)?, p_isize(arg(args, 5)?)?, 0usize);
+                    if c.precision() != p10 {
+                        // the generator's prediction of the new precision is part of the case
+                        return Ok(format!("unexpected-precision {}", c.precision()));
+                    }
+                    let _ = exact;
+                    Ok(format!(
+                        "{} {} {}",
+                        c == b,
+                        c.partial_cmp(&b).map(f_ord).unwrap_or("none"),
+                        b.partial_cmp(&c).map(f_ord).unwrap_or("none")
+                    ))
+                }
+                // q.cmp n1 d1 n2 d2 : Relaxed fractions as given (not reduced) and the reduced RBig
+                "q.cmp" => {
+                    let n1 = p_ibig(arg(args, 0)?)?;
+                    let d1 = p_ubig(arg(args, 1)?)?;
+                    let n2 = p_ibig(arg(args, 2)?)?;
+                    let d2 = p_ubig(arg(args, 3)?)?;
+                    let xa = Relaxed::from_parts(n1.clone(), d1.clone());
+                    let xb = Relaxed::from_parts(n2.clone(), d2.clone());
+                    let ra = RBig::from_parts(n1, d1);
+                    let rb = RBig::from_parts(n2, d2);
+                    let mix = (ra == rb) == (xa == xb) && ra.cmp(&rb) == xa.cmp(&xb);
+                    Ok(format!(
+                        "{} {} {} | {} {} {} {}{}",
+                        xa == xb,
+                        f_ord(xa.cmp(&xb)),
+                        f_ord(xb.cmp(&xa)),
+                        ra == rb,
+                        f_ord(ra.cmp(&rb)),
+                        f_ord(rb.cmp(&ra)),
+                        feed(&ra) == feed(&rb),
+                        if mix { "" } else { " BAD relaxed-vs-rbig" }
+                    ))
+                }
+                _ => Err("__none__".into()),
+            }
+        })())
+        .and_then(|r| match r {
+            Err(e) if e == "__none__" => None,
+            other => Some(other),
+        })
+    }
 }
